@@ -148,9 +148,16 @@ def run_case(case):
         except Exception as e:
             return None, None, e
 
+    # the earlier dumps of a history either use this dump's counter configuration or the default one
+    hist_default_counters = boot.rng(case['seed'], 'C09', 'histcounters', case['idx']).random() < 0.5
+    cfg['history_dumps_use_default_counters'] = hist_default_counters
+
     def dump_path(out, sources=None):
         steps = sources or [lab.source(r['name'], r['fields'], r['rows']) for r in res]
-        steps.append(d.dump_to_path(out, **copy.deepcopy(opts)))
+        o_ = copy.deepcopy(opts)
+        if hist_default_counters:
+            o_.pop('counters', None)
+        steps.append(d.dump_to_path(out, **o_))
         try:
             with boot.quiet():
                 dp, stats = d.Flow(*steps).process()
@@ -219,6 +226,14 @@ def run_case(case):
                 elif rec != actual:
                     add('resource_counter', 'resource %s: recorded %s=%r, file has %r' % (rd['name'], label, rec, actual),
                         'resource_%s_wrong/%s' % (label, fmt), field=label)
+            # whatever the counters are called in THIS dump: a default-named counter property found in the written
+            # descriptor (e.g. carried in by a loaded dump) must describe the written file, too
+            for prop, key, actual in (('bytes', 'resource-bytes', len(data)), ('hash', 'resource-hash', iolab.md5(data)),
+                                      ('count_of_rows', 'resource-rowcount', iolab.count_data_rows(rd, data))):
+                if cnames[key] != prop and prop in rd and rd[prop] != actual:
+                    add('stale_counter', 'resource %s: written descriptor carries %s=%r (not written by this dump, which '
+                        'records it as %r), the file has %r' % (rd['name'], prop, rd[prop], cnames[key], actual),
+                        'stale_default_counter/%s' % prop, field=prop)
             if cnames['resource-rowcount'] is not None and len(r['rows']) != iolab.count_data_rows(rd, data):
                 add('rows_written', 'resource %s: %d rows entered, file holds %d' %
                     (rd['name'], len(r['rows']), iolab.count_data_rows(rd, data)), 'rows_written/' + fmt)
